@@ -1,12 +1,18 @@
 /-
 C02 — intra pictures reconstruct exactly as H.263 prescribes.  Property theorems only.
-(PARTIAL, see MANIFEST level_note: the layer-wise facts below are proved; the picture-level statement
-`decode (encode P) = reconstruct P` is carried by the correspondence runs over generated valid pictures.)
+
+Picture level (`picture_round_trip`, Sorenson Spark streams, intra and predicted pictures alike): on the bits the specification
+encoder writes for a valid picture description the decoder commits exactly the picture computed by the *bit-free* semantics of
+the description — header record, per macroblock the quantizer update, vector reconstruction, dequantisation and zig-zag
+placement of every block at its position, then motion compensation and the inverse transforms — and consumes exactly those
+bits.  The arithmetic inside those semantic steps is the subject of C11 (dequantisation, INTRADC, DQUANT), C12 (vectors) and
+C10 (transform accuracy); standard-H.263 headers and truncated pictures are carried by the correspondence runs.
 -/
 import H263V.Model.State
 import H263V.Spec.Recon
 import H263V.Lemmas.VlcTables
 import H263V.Thm.C11
+import H263V.Lemmas.SorensonPicture
 namespace H263V.Thm.C02
 open H263V H263V.Gather H263V.Spec.Vlc
 
@@ -42,5 +48,62 @@ theorem planes_sized (hdr : PicHdr) (fmt : SrcFmt) (w h : Nat) (hd : fmt.dims = 
 /-- Dequantisation (C11) and INTRADC reconstruction as used by the intra path. -/
 theorem dequant_spec (q : Nat) (level : Int) : Rle.dequant q level = Spec.Recon.dequant q level :=
   Thm.C11.dequant_spec q level
+
+
+open H263V.State H263V.Lemmas.SorensonPicture H263V.Lemmas.PictureRoundTrip H263V.Lemmas.RoundTrip H263V.Spec.Syntax in
+/-- **Picture round trip.**  For every decoder state in Sorenson mode, every valid picture description `p` (`SPic.Valid`: header
+fields in range; exactly the picture's macroblocks; every macroblock's MCBPC / DQUANT / MVD codable; every block's INTRADC
+code and coefficient events codable in the stream's flavour) and whatever follows it:
+`decode_next_picture (encode p ++ rest)` = (bit-free semantics of `p`), committed, with the reader at `rest`. -/
+theorem picture_round_trip (s : State) (hs : s.opts.sorenson = true) (hr : s.running = 0) (p : SPic) (w h : Nat)
+    (hv : p.Valid s.opts w h) (rest : Bits) (pos : Nat) :
+    decodeNextPicture s ⟨p.bits ++ rest, pos⟩ =
+      semCore s (Spec.HeaderSpec.sorensonPicture p.hdr) p.mbs >>= fun r => .ok (commitPic s r.1 r.2, ⟨rest, pos + p.bits.length⟩) :=
+  decode_spic s hs hr p w h hv rest pos
+
+open H263V.State H263V.Lemmas.SorensonPicture H263V.Lemmas.PictureRoundTrip in
+/-- The decoded picture reports the header it was decoded from and the format that header signals; its planes have the
+signalled sizes (`planes_sized`). -/
+theorem decoded_picture_reports_header (s : State) (hdr : PicHdr) (mbs : List Spec.Syntax.MbD) (r : PicHdr × DecPic)
+    (h : semCore s hdr mbs = .ok r) : r.2.hdr = hdr ∧ ∀ f, hdr.format = some f → r.2.fmt = f :=
+  ⟨(semCore_hdr s hdr mbs r h).2.1, (semCore_hdr s hdr mbs r h).2.2⟩
+
+open H263V.Lemmas.RoundTrip H263V.Spec.Syntax in
+/-- Block layer on its own: `decode_block` returns exactly the INTRADC code and the (run, level) events written, in order,
+for short and escape-coded events of the stream's flavour, and consumes exactly the block's bits. -/
+theorem block_round_trip (d : DecOpts) (hdr : PicHdr) (running : Nat) (t : MbType) (b : BlockD) (hb : BlockOK d hdr t b)
+    (rest : Bits) (pos : Nat) :
+    Mb.decodeBlock d hdr running t (codedFlag b) ⟨encodeBlock b ++ rest, pos⟩ = .ok (toBlock b, ⟨rest, pos + (encodeBlock b).length⟩) :=
+  decodeBlock_encode d hdr running t b hb rest pos
+
+open H263V.Lemmas.RoundTrip H263V.Spec.Syntax in
+/-- Macroblock layer on its own: [COD] MCBPC CBPY [DQUANT] [MVD] [MVD2-4] is parsed back to exactly what was written. -/
+theorem macroblock_header_round_trip (hdr : PicHdr) (running : Nat) (ip : Bool) (ctx : HdrCtx hdr running ip) (t : MbType)
+    (f : Bool × Bool × Bool × Bool) (ccb ccr : Bool) (dq : Int) (mvd : Mvd) (mvd234 : Mvd × Mvd × Mvd)
+    (hmc : (Spec.Vlc.mcbpcCode ip t ccb ccr).isSome = true)
+    (hdq : t.hasQuantizer = true → DqVal dq) (hmv : t.isInter = true → MvdVal mvd)
+    (h4 : t.hasFourVec = true → MvdVal mvd234.1 ∧ MvdVal mvd234.2.1 ∧ MvdVal mvd234.2.2) (rest : Bits) (pos : Nat) :
+    Mb.decodeMacroblock hdr running ⟨encodeMbHeader ip t f ccb ccr dq mvd mvd234 ++ rest, pos⟩ =
+      .ok (toMacroblock t f ccb ccr dq mvd mvd234, ⟨rest, pos + (encodeMbHeader ip t f ccb ccr dq mvd mvd234).length⟩) :=
+  decodeMacroblock_coded hdr running ip ctx t f ccb ccr dq mvd mvd234 hmc hdq hmv h4 rest pos
+
+open H263V.Lemmas.SorensonPicture H263V.Lemmas.PictureRoundTrip H263V.Lemmas.RoundTrip H263V.Spec.Syntax in
+/-- non-vacuity: a 16x16 intra picture of one INTRA+Q macroblock (DQUANT −2) with a short event, a 7-bit and an 11-bit escape
+event and a DC-only block meets `SPic.Valid` -/
+example : (⟨{ version := 1, tr := 7, sizeCode := 0, customW := 16, customH := 16, picType := 0, deblock := true, quant := 5, extra := [9] },
+    [⟨1, .coded .intraQ (-2) (0, 0) ((0, 0), (0, 0), (0, 0))
+      [{ dc := some 100, events := [⟨0, 3, .short⟩, ⟨2, -50, .esc7⟩, ⟨5, 700, .esc11⟩] }, { dc := some 255 }, { dc := some 1 },
+       { dc := some 127 }, { dc := some 129, events := [⟨63, -1, .esc7⟩] }, { dc := some 200 }]⟩]⟩ : SPic).Valid
+    { sorenson := true, scalability := false } 16 16 := by
+  refine ⟨⟨by decide, by decide, by decide, by decide, by decide, by decide, by decide, by decide⟩, by decide, rfl, rfl, ?_⟩
+  intro m hm
+  simp only [List.mem_singleton] at hm
+  subst hm
+  refine ⟨by decide, fun _ => Or.inl rfl, fun h => by simp [MbType.isInter] at h, fun h => by simp [MbType.hasFourVec] at h, ?_⟩
+  intro i hi
+  have : i = 0 ∨ i = 1 ∨ i = 2 ∨ i = 3 ∨ i = 4 ∨ i = 5 := by omega
+  rcases this with e | e | e | e | e | e <;> subst e <;>
+    refine ⟨⟨_, rfl, by decide, by decide, by decide⟩, ?_⟩ <;>
+    simp only [blk, List.getD_cons_zero, List.getD_cons_succ, EventsOK, EventOK, v1] <;> decide
 
 end H263V.Thm.C02
